@@ -58,6 +58,7 @@ theorem closed_noPercent (s : Str) (h : '%' ∉ s) : Closed s s := by
 def Conv.quotes : Conv → Bool
   | .string .. => true
   | .path => true
+  | .any _ => true
   | _ => false
 
 theorem toUrl_closed {c : Conv} {v : Value} {s : Str} (h : toUrl c v = .ok s) (hq : c.quotes = true ∨ '%' ∉ s) :
@@ -70,11 +71,16 @@ theorem toUrl_closed {c : Conv} {v : Value} {s : Str} (h : toUrl c v = .ok s) (h
     simp only [toUrl, Except.ok.injEq] at h; subst h
     rw [unquote_quote_pathSafe]; exact closed_quote _
   | any items =>
-    have hp : '%' ∉ s := by
-      rcases hq with hq | hq
-      · cases hq
-      · exact hq
-    rw [unquote_noPercent s hp]; exact closed_noPercent s hp
+    cases v with
+    | str t =>
+      simp only [toUrl] at h
+      split at h
+      · simp only [Except.ok.injEq] at h; subst h
+        rw [unquote_quote_pathSafe]; exact closed_quote _
+      · cases h
+    | int i => simp [toUrl] at h
+    | float t => simp [toUrl] at h
+    | uuid t => simp [toUrl] at h
   | uuid =>
     have hp : '%' ∉ s := by
       rcases hq with hq | hq
